@@ -194,8 +194,10 @@ def install_clone_override(prog, models):
 def mk_testcase(ctx, i, timeout, skip_code, line=1):
     cfg = mk_struct("TestCaseConfig", detached=none(), environment=MapBuf([]), keep_crlf=none(), output_stream=none(),
                     skip_document_code=skip_code, strip_ansi_escaping=none(), timeout=timeout, wait=none())
+    # the exit code the document expects of this test case: anything, or none — the executor has no business with it
+    want = SymOpt(ctx.sym_bool("want%d_set" % i), ctx.sym_int("want%d" % i, "i32"))
     return mk_struct("TestCase", title=StringBuf([]), shell_expression=StringBuf([SInt(ord("x"), "char")]),
-                     expectations=VecBuf([]), exit_code=none(), line_number=mk_int(line + i, "usize"), config=cfg)
+                     expectations=VecBuf([]), exit_code=want, line_number=mk_int(line + i, "usize"), config=cfg)
 
 
 def mk_context(ctx, total_timeout, default_skip=None):
